@@ -80,6 +80,7 @@ Ok(e) ==
                           /\ SurvTagsOk(e)
                           /\ Clean(e)
     [] e.ev = "Audit"  -> AuditOk(e.ok)
+    [] e.ev = "Note"   -> TRUE      \* the allocator's own report about its housekeeping pages: information only
     [] OTHER           -> FALSE     \* Fault, Lost, Hang, unknown
 
 (* a short reason for the report (evaluated only when Ok(e) is FALSE)      *)
@@ -146,6 +147,7 @@ Effect(e) ==
                           /\ last' = <<"Collect", Null>>
                           /\ UNCHANGED <<roots, auto>>
     [] e.ev = "Audit"  -> Audit(e.ok) /\ UNCHANGED auto
+    [] e.ev = "Note"   -> UNCHANGED <<vars, auto>>
 
 Step == /\ l <= N
         /\ Ok(Trc[l])
@@ -167,4 +169,9 @@ TraceSpec == TInit /\ [][TNext]_tvars
 
 (* the invariants of the property, evaluated in every state of the trace   *)
 TraceInv == Disjoint /\ AlignedAll /\ SizeOk /\ SlotsOk
+
+(* For histories with a thousand live blocks (TraceStoreScale.cfg) the pairwise form of Disjoint is *)
+(* quadratic in every state.  It is implied there by what every accepted step has checked: Alloc    *)
+(* and Resize require Fits(new block, all other live blocks), and no other step adds or moves one.  *)
+TraceInvLinear == AlignedAll /\ SizeOk /\ SlotsOk
 =============================================================================
